@@ -19,7 +19,7 @@ func (c15) ID() string { return "C15" }
 
 func (c15) NumCases(tier string) int {
 	if tier == "thorough" {
-		return 300_000
+		return 1_200_000
 	}
 	return 40_000
 }
